@@ -12,7 +12,7 @@ import (
 
 func init() {
 	Register(&Scenario{Prop: "C06", Name: "kv-lww", Run: scenC06, SoftParks: true, Weight: 1,
-		Rule: "1-3 replicas of a key-value store (one operation in ten arms a disk error for the next write of the merged heads on one replica: the merge itself stands, view and log must still agree); 3-14 (thorough 3-40) Put/Delete on 1-5 keys (repeated keys, deletes of absent keys, re-puts, empty and binary values), one operation in five a burst of 2-3 concurrent local writers stepped through the write path or free-running (the client of one of them may give up mid-write: its context is cancelled while it sits between two steps), with replication under the swarm faults, failing fetches / gap-fill and kernel stalls; at every quiescent step each replica's Get/All must equal the last-writer-wins replay of its own log by the independent model, and the log order must respect the causal past recorded by the kernel; non-trivial = >=3 writes and (with several replicas) >=1 replicated entry"})
+		Rule: "1-3 replicas of a key-value store (one operation in ten arms a disk error for the next write of the merged heads on one replica: the merge itself stands, view and log must still agree); 3-14 (thorough 3-40) Put/Delete on 1-5 keys (repeated keys, deletes of absent keys, re-puts, empty and binary values), one operation in five a burst of 2-3 concurrent local writers stepped through the write path or free-running (the client of one of them may give up mid-write: its context is cancelled while it sits between two steps), 0-2 readers (Get of one key, All) run beside the writers of a burst and, one operation in four, beside the merges of the following steps; with replication under the swarm faults, failing fetches / gap-fill and kernel stalls; at every quiescent step each replica's Get/All must equal the last-writer-wins replay of its own log by the independent model, and the log order must respect the causal past recorded by the kernel; non-trivial = >=3 writes and (with several replicas) >=1 replicated entry"})
 }
 
 var c06Keys = []string{"a", "b", "ключ", "k k", "z/1"}
@@ -80,6 +80,37 @@ func scenC06(k *K) {
 	k.Invariant = func() { check("step") }
 	overrides := 0
 	c.BurstCancel = k.C.Chance(1, 2)
+	startReaders := func(m, node int) []*Op {
+		var rs []*Op
+		kv, _ := c.Stores[node].(iface.KeyValueStore)
+		if kv == nil {
+			return nil
+		}
+		for r := 0; r < m; r++ {
+			all, key := k.C.Chance(1, 2), c06Keys[k.C.Intn(nkeys)]
+			rs = append(rs, k.Go(node, "read-during-changes", func() (interface{}, error) {
+				if all {
+					return kv.All(), nil
+				}
+				return kv.Get(context.Background(), key)
+			}))
+		}
+		return rs
+	}
+	finishReaders := func(rs []*Op) {
+		for _, r := range rs {
+			for j := 0; j < 50 && !k.IsDone(r); j++ {
+				k.Step()
+			}
+			if !k.IsDone(r) {
+				k.Failf("C06/read-hang", "a Get/All started while writes or merges were under way did not return")
+			}
+			if r.Err != nil {
+				k.Failf("C06/read-error", "a Get/All that ran while writes or merges were under way failed: %v", r.Err)
+			}
+			k.W.Stat("read-concurrent-with-changes")
+		}
+	}
 	for i := 0; i < nops; i++ {
 		node := k.C.Intn(n)
 		if n > 1 && k.C.Chance(1, 10) {
@@ -99,8 +130,12 @@ func scenC06(k *K) {
 			k.cleanups = append(k.cleanups, func() { k.W.mu.Lock(); k.W.DiskFault = nil; k.W.mu.Unlock() })
 		}
 		if k.C.Chance(1, 5) {
-			// concurrent local writers; the client of one of them may give up mid-write
+			// concurrent local writers; the client of one of them may give up mid-write.
+			// 0-2 readers (Get of one key, or All) run beside them: whatever they are given,
+			// the view is the replay of the log again once nobody is at work
+			readers := startReaders(k.C.Range(0, 2), node)
 			c.WriteBurst(node, k.C.Range(2, 3), k.C.Chance(1, 2))
+			finishReaders(readers)
 			k.Steps(k.C.Intn(6))
 			check("after-burst")
 			continue
@@ -136,7 +171,13 @@ func scenC06(k *K) {
 				}
 			}
 		}
+		// a reader on some replica while merges of the next steps run
+		var readers []*Op
+		if k.C.Chance(1, 4) {
+			readers = startReaders(1, k.C.Intn(n))
+		}
 		k.Steps(k.C.Intn(6))
+		finishReaders(readers)
 		check("after-op")
 	}
 	k.Settle(90*time.Second, 3000, c.AllIdle)
